@@ -17,6 +17,7 @@ var purePkgs = map[string]bool{"strings": true, "strconv": true, "unicode": true
 var LibModels = []string{
 	"fmt.Errorf/errors.New: returns a non-nil error",
 	"fmt.Sprintf/Sprint: result is an unconstrained string (abstracted)",
+	"bytes.Reader: the sequence of bytes not yet read (NewReader, Len, ReadByte)",
 	"bytes.Buffer / strings.Builder: append-only byte sequence (WriteByte, Write, WriteString, WriteRune, Bytes, String, Len, Reset)",
 	"math.Abs/Min/Max: exact over reals; math.Sqrt: sqrtU(x)>=0 && sqrtU(x)^2==x for x>=0; math.Floor: to_int",
 	"unicode.IsSpace: exact for code points < 256, uninterpreted above",
@@ -94,6 +95,29 @@ func (x *Exec) libCall(key string, fn *types.Func, call *ast.CallExpr, recvExpr 
 		nv.GoT = cur.GoT
 		x.assign(recvExpr, nv, env)
 		return nil, true
+	case "bytes.NewReader":
+		// a bytes.Reader is modelled as the sequence of bytes not yet read
+		v := arg(0)
+		v.GoT = info.TypeOf(call)
+		return []Term{v}, true
+	case "bytes.(*Reader).Len":
+		cur := x.eval(recvExpr, env)
+		return []Term{x.W.SeqLen(cur)}, true
+	case "bytes.(*Reader).ReadByte":
+		cur := x.eval(recvExpr, env)
+		empty := Cmp("<=", x.W.SeqLen(cur), IntLit(0))
+		b := x.W.SeqAt(cur, IntLit(0))
+		b.GoT = types.Typ[types.Uint8]
+		x.typeFactsIf(b, b.GoT, env)
+		rest := x.W.MkSeq(cur.Sort, x.W.SeqBase(cur), Arith("+", x.W.SeqOff(cur), IntLit(1)), Arith("-", x.W.SeqLen(cur), IntLit(1)))
+		rest.GoT = cur.GoT
+		if !x.termMode {
+			rest = x.sliceFacts(rest, cur, IntLit(1))
+		}
+		nv := Ite(empty, cur, rest)
+		nv.GoT = cur.GoT
+		x.assign(recvExpr, nv, env)
+		return []Term{Ite(empty, IntLit(0), b), empty}, true
 	case "strings.(*Builder).Grow", "bytes.(*Buffer).Grow":
 		arg(0)
 		return nil, true
